@@ -264,9 +264,32 @@ func AtomicPoint()                  { call(request{kind: opAtomicLoad}) }
 
 // --- ordered map iteration ----------------------------------------------------------------------------------
 
-// MapOrder selects the iteration order that RangeMap imposes: 0 ascending keys, 1 descending keys. Every order is
-// a legal Go map iteration order; fixing it makes executions replayable, switching it explores order dependence.
+// MapOrder selects the iteration order that RangeMap imposes: bit 0 = descending instead of ascending keys, the
+// remaining bits = rotation of that order by MapOrder>>1 positions (Go starts a map iteration at a random position
+// and wraps around). Orders 0..5 are all six permutations of a three-element map. Every order is a legal Go map
+// iteration order; fixing it makes executions replayable, switching it explores order dependence.
 var MapOrder int
+
+// MapOrders returns the orders a harness enumerates: ascending and descending, and with all their rotations by 1
+// and 2 as well.
+func MapOrders(all bool) []int {
+	if all {
+		return []int{0, 1, 2, 3, 4, 5}
+	}
+	return []int{0, 1}
+}
+
+// MapOrderName describes a MapOrder value.
+func MapOrderName(o int) string {
+	n := "ascending"
+	if o&1 == 1 {
+		n = "descending"
+	}
+	if o>>1 > 0 {
+		n += fmt.Sprintf(" rotated by %d", o>>1)
+	}
+	return n
+}
 
 // RangeMap iterates m in a deterministic key order.
 func RangeMap[M ~map[K]V, K comparable, V any](m M) iter.Seq2[K, V] {
@@ -276,10 +299,14 @@ func RangeMap[M ~map[K]V, K comparable, V any](m M) iter.Seq2[K, V] {
 			keys = append(keys, k)
 		}
 		sortKeys(keys)
-		if MapOrder == 1 {
+		if MapOrder&1 == 1 {
 			for i, j := 0, len(keys)-1; i < j; i, j = i+1, j-1 {
 				keys[i], keys[j] = keys[j], keys[i]
 			}
+		}
+		if r := MapOrder >> 1; r > 0 && len(keys) > 1 {
+			r %= len(keys)
+			keys = append(keys[r:], keys[:r]...)
 		}
 		for _, k := range keys {
 			v, ok := m[k]
